@@ -1067,6 +1067,27 @@ def gen_late(rng):
     return {"rewards": rewards, "players": players, "transition_list": tl, "final_states": [final]}
 
 
+def gen_empty_label(rng):
+    """Every forced move (player state with one action) is called "" - a legal action name - and so is one action of some state
+    with a real choice."""
+    gd = gen_acy(rng, nmax=10, owners=(0.4, 0.35, 0.25), max_out=3) if rng.random() < 0.6 else \
+        (gen_cyc(rng, nmax=10, owners=(0.4, 0.35, 0.25), max_out=3) or gen_acy(rng, nmax=10))
+    tl = []
+    for s, tr in enumerate(gd["transition_list"]):
+        if gd["players"][s] == PR:
+            tl.append(list(tr))
+        elif len(tr) == 1:
+            tl.append([("", tr[0][1])])
+        elif rng.random() < 0.4:
+            i = rng.randrange(len(tr))
+            tl.append([(("" if j == i else a), t) for j, (a, t) in enumerate(tr)])
+        else:
+            tl.append(list(tr))
+    out = dict(gd)
+    out["transition_list"] = tl
+    return out
+
+
 def gen_no_reach(rng):
     """No non-final state can reach a final state: the finals are isolated (or every state is final)."""
     gd = gen_acy(rng, nmax=8) if rng.random() < 0.5 else (gen_cyc(rng, nmax=8) or gen_acy(rng, nmax=8))
@@ -1145,6 +1166,8 @@ def gen_class(rng, cls, **kw):
         return gen_half_cell(rng)
     if cls == "G-LATE":
         return gen_late(rng)
+    if cls == "G-EMPTY":
+        return gen_empty_label(rng)
     if cls == "G-NOREACH":
         return gen_no_reach(rng)
     if cls == "G-TINYB":
